@@ -188,5 +188,5 @@ MANIFEST = {
             "through the running point and the point then added or doubled with f updated in step, the loop scalar is 6u+2 resp. "
             "|x| with exactly the two Frobenius steps for BN, and the final exponent is (p^12−1)/r. Bilinearity and non-degeneracy "
             "are theorems about this algorithm and are not decided.",
-    "note": "Layered on C07/C13 (group law, twist homomorphism) and C13.R3/C12.R3 (line functions). Oracle: BN/BLS parameter polynomials.",
+    "note": "R4 re-states C13 (formulas) and the multiply ladder schema of all four modules (C07.R3): the arguments aP, bQ of the statement are built with multiply. Layered on C07/C13 (group law, twist homomorphism) and C13.R3/C12.R3 (line functions). Oracle: BN/BLS parameter polynomials.",
 }
